@@ -160,6 +160,7 @@ func runProp(repo, verif string, pd *propDef, tier string, seed int) (code int) 
 			continue
 		}
 		r.Notes = append(r.Notes, fmt.Sprintf("loaded %d packages, %d function bodies in scope, %d files", len(p.All), len(p.Funcs), countFiles(p)))
+		r.Notes = append(r.Notes, p.InlineNotes...)
 		runRules(c, pd)
 	}
 	if tier == "thorough" {
@@ -323,6 +324,14 @@ func runAll(repo string) int {
 	if err != nil {
 		fmt.Println("LOAD-ERROR", err)
 		return 3
+	}
+	for _, n := range p.InlineNotes {
+		fmt.Println("INLINE", n)
+	}
+	if d := os.Getenv("GP_DUMP_OVERLAY"); d != "" {
+		for fn, b := range p.Overlay {
+			os.WriteFile(filepath.Join(d, filepath.Base(fn)), b, 0o644)
+		}
 	}
 	var ids []string
 	for id := range props {
